@@ -139,7 +139,8 @@ def expected_effects(op, placement):
     if op == "insert":
         return {("insert", "self.map")}, None
     if op == "remove":
-        return ({("remove", h + ".map")}, {("Ok", None)}) if h else (set(), {("Err", None)})
+        # the removed value is the content of the holder's cell (shown when the interpreter can follow the unboxing)
+        return ({("remove", h + ".map")}, {("Ok", None), ("Ok", "T:box:cell@" + h)}) if h else (set(), {("Err", None)})
     if op in ("try_borrow", "try_borrow_mut", "try_get_value", "try_borrow_value", "try_borrow_value_mut"):
         return ({("get", h + ".map")}, None) if h else (set(), {("Err", None)})
     if op in ("borrow", "borrow_mut", "get_value", "borrow_value", "borrow_value_mut"):
